@@ -35,12 +35,28 @@ OPTIONS = [[], [], ["--max-workers", "2"], ["--path-exclude", "lib/*"], ["--path
            ["--verbose"], ["--max-workers", "4", "--path-exclude", "e.py"]]
 
 
+def tob(x):
+    return x if isinstance(x, bytes) else x.encode("utf-8")
+
+
+def decode_project(project):
+    """replay/corpus projects: text files come back as str, anything that is not UTF-8 stays bytes"""
+    out = {}
+    for k, v in project.items():
+        b = base64.b64decode(v)
+        try:
+            out[k] = b.decode("utf-8") if not b.startswith(b"\xef\xbb\xbf") else b
+        except UnicodeDecodeError:
+            out[k] = b
+    return out
+
+
 def corpus_cases():
     out = []
     d = core.VERIF / "corpus" / "C04"
     for f in sorted(d.glob("*.json")) if d.is_dir() else []:
         body = json.loads(f.read_text())
-        out.append({"name": "corpus:" + f.stem, "files": {k: base64.b64decode(v).decode() for k, v in body["project"].items()},
+        out.append({"name": "corpus:" + f.stem, "files": decode_project(body["project"]),
                     "codemod": body["codemod"], "options": body.get("options", []), "manifests": body.get("manifests", [])})
     return out
 
@@ -79,7 +95,7 @@ def shaped_cases(ctx):
     fam = rc.manifest_family()
     if ctx.quick() and not getattr(ctx, "deep", False):
         must = {"no_final_newline", "crlf", "other_spelling"}
-        fam = [x for x in fam if x[2] in must or rng.random() < 0.12]
+        fam = [x for x in fam if x[2] in must or rng.random() < 0.06]
     cases = []
     for i, (kind, layout, shape) in enumerate(fam):
         ks = [adders[i % len(adders)]] if ctx.quick() else [adders[i % len(adders)], rc.P + "url-sandbox"]
@@ -88,6 +104,21 @@ def shaped_cases(ctx):
             files[kind] = rc.shape_manifest(kind, layout, shape, rc.DEPS[k])
             cases.append({"name": f"shape:{kind}:{layout}:{shape}", "files": files, "codemod": k, "options": [], "manifests": [kind],
                           "shape": (kind, layout, shape)})
+    # encoding variants: every manifest kind x encoding (x one layout in the quick tier, every layout otherwise); the manifest is
+    # bytes that are NOT plain UTF-8 (UTF-16 LE/BE with BOM as PowerShell's `pip freeze >` writes, UTF-8 with BOM, latin-1 with a
+    # non-ASCII comment); the dry run must leave it byte-identical and predict the real run, whatever the writer makes of it
+    j = 0
+    for kind, layouts in rc.MANIFEST_LAYOUTS.items():
+        names = sorted(layouts)
+        chosen = [names[ctx.seed % len(names)]] if (ctx.quick() and not getattr(ctx, "deep", False)) else names
+        for layout in chosen:
+            for enc in rc.MANIFEST_ENCODINGS:
+                k = adders[j % len(adders)]
+                j += 1
+                files = rc.gen_project(rng, [k], 2, [])
+                files[kind] = rc.encode_manifest(kind, rc.MANIFEST_LAYOUTS[kind][layout], enc)
+                cases.append({"name": f"encoding:{kind}:{layout}:{enc}", "files": files, "codemod": k, "options": [], "manifests": [kind],
+                              "shape": (kind, layout, "encoding=" + enc)})
     return cases
 
 
@@ -101,6 +132,14 @@ def materialise(R, case):
     b.rmdir()
     rc.copy_tree(a, b)
     return a, b
+
+
+def norm_report(rep, root):
+    """core.normalise_report + failedFiles relative to the target (they are reported as absolute paths, and the real run works on a copy)"""
+    rep = core.normalise_report(rep)
+    for res in rep.get("results", []):
+        res["failedFiles"] = [str(Path(p).relative_to(root)) if Path(p).is_relative_to(root) else p for p in res.get("failedFiles", [])]
+    return rep
 
 
 def classify_report_diff(dry_rows, real_rows, manifests):
@@ -133,7 +172,7 @@ def evaluate(ctx, R, case, a, b, before, dry, real):
         ctx.violation("kf_dry_run_writes", f"{case['name']}: --dry-run with {k} changed {changed}",
                       {**replay, "observed": {"changed_paths": changed}, "expected": "snapshot(before) == snapshot(after)"})
     # SPEC 2: report(dry) == report(real) modulo timing/paths
-    nd, nr = core.normalise_report(dry["report"]), core.normalise_report(real["report"])
+    nd, nr = norm_report(dry["report"], a), norm_report(real["report"], b)
     dry_rows, real_rows = rc.rows_of_report(dry["report"], a), rc.rows_of_report(real["report"], b)
     if nd != nr:
         cls = classify_report_diff(dry_rows, real_rows, case["manifests"])
@@ -157,8 +196,9 @@ def evaluate(ctx, R, case, a, b, before, dry, real):
     def occurrences(text):
         return text.lower().count(dep.lower()) if dep else 0
     manifest_changed = [m for m in case["manifests"]
-                        if real_tree.get(m) != case["files"][m].encode()
-                        and (not m.endswith(".py") or occurrences(real_tree.get(m, b"").decode(errors="replace")) > occurrences(case["files"][m]))]
+                        if real_tree.get(m) != tob(case["files"][m])
+                        and (not m.endswith(".py") or occurrences(real_tree.get(m, b"").decode(errors="replace"))
+                             > occurrences(tob(case["files"][m]).decode(errors="replace")))]
     depid = [A.content("dep:" + dep)] if (dep and manifest_changed) else []
     T = []
     stores_paths = set(case["manifests"])
@@ -167,7 +207,7 @@ def evaluate(ctx, R, case, a, b, before, dry, real):
         # set alone, which the real tree no longer shows; the model is then fed from the dry report's row only (see below)
         if f in manifest_changed:
             continue
-        if real_tree.get(f) != case["files"][f].encode():
+        if real_tree.get(f) != tob(case["files"][f]):
             T.append((A.content(case["files"][f]), A.content(real_tree[f]), depid))
     overlap = [m for m in manifest_changed if m in sel and any(m == p for r in real_rows for p in r["changed"][:-1])]
     if overlap:
@@ -178,7 +218,15 @@ def evaluate(ctx, R, case, a, b, before, dry, real):
     hx_fs = [(A.path(p), A.content(c)) for p, c in case["files"].items()]
     ob_fs = [(A.path(p), A.content(c)) for p, c in core.read_tree(a).items() if p in case["files"]]
     ob_rows = [(A.codemod(r["codemod"]), [A.path(p) for p in r["changed"]], [A.path(p) for p in r["failed"]]) for r in dry_rows]
-    term = rc.c_hcase(True, [A.path(f) for f in sel], hx_fs, [], [rc.c_hcodemod(A, k, "DNone", T)], stores, W, dry["rc"], ob_fs, ob_rows)
+    # oracle: which selected sources the pipeline cannot read (UTF-8 decode + libcst parse), e.g. a setup.py stored as UTF-16
+    import libcst
+    hx_bad = []
+    for f in sel:
+        try:
+            libcst.parse_module(tob(case["files"][f]).decode("utf-8"))
+        except Exception:
+            hx_bad.append(A.content(case["files"][f]))
+    term = rc.c_hcase(True, [A.path(f) for f in sel], hx_fs, hx_bad, [rc.c_hcodemod(A, k, "DNone", T)], stores, W, dry["rc"], ob_fs, ob_rows)
     return (term, bool(T) or bool(W))
 
 
@@ -300,7 +348,7 @@ def check_pipeline_probes(ctx, files, tag):
 
 def run(ctx: core.Ctx):
     R = rc.Runner(ctx)
-    n = 10 if ctx.quick() else 200
+    n = 8 if ctx.quick() else 200
     if getattr(ctx, "deep", False):
         n *= 2
     cases = corpus_cases() + gen_cases(ctx, n) + shaped_cases(ctx)
@@ -320,7 +368,7 @@ def run(ctx: core.Ctx):
         nontrivial = None
         if out is not None:
             term, nt = out
-            nontrivial = (c["codemod"], tuple(c["manifests"]), tuple(c["options"]), json.dumps(c["files"], sort_keys=True)) if nt else None
+            nontrivial = (c["codemod"], tuple(c["manifests"]), tuple(c["options"]), json.dumps(core.b64tree(c["files"]), sort_keys=True)) if nt else None
             if term != "skip-model":
                 terms.append(term)
                 meta.append(c)
@@ -364,7 +412,7 @@ def replay(ctx, body):
             print(" -", v["class"], v["what"][:300])
         return 0 if not ctx.violations else 1
     R = rc.Runner(ctx)
-    files = {k: base64.b64decode(v).decode() for k, v in body["project"].items()}
+    files = decode_project(body["project"])
     c = {"name": "replay", "files": files, "codemod": body["codemod"], "options": body.get("options", []), "manifests": body.get("manifests", [])}
     a, b = materialise(R, c)
     before = core.snapshot(a)
@@ -373,7 +421,7 @@ def replay(ctx, body):
     after = core.snapshot(a)
     print("tree untouched by --dry-run:", before == after)
     if isinstance(dry["report"], dict) and isinstance(real["report"], dict):
-        same = core.normalise_report(dry["report"]) == core.normalise_report(real["report"])
+        same = norm_report(dry["report"], a) == norm_report(real["report"], b)
         print("report(dry) == report(real):", same)
         if not same:
             for x, y in zip(rc.rows_of_report(dry["report"], a), rc.rows_of_report(real["report"], b)):
